@@ -442,6 +442,49 @@ def rule_N1(ctx):
                         stored.add(n.slice.value)
                     else:
                         loaded.setdefault(n.slice.value, (fi, n))
+    # `node.update({...})`, `node.update(key=...)`, `node.update(record._asdict())` store keys as well
+    def record_fields_of(fi, e, depth=0):
+        if depth > 3:
+            return None
+        if isinstance(e, ast.Name):
+            defs = [n.value for n in ast.walk(fi.node) if isinstance(n, ast.Assign) and len(n.targets) == 1 and isinstance(n.targets[0], ast.Name) and n.targets[0].id == e.id]
+            if len(defs) == 1:
+                return record_fields_of(fi, defs[0], depth + 1)
+            return None
+        if isinstance(e, ast.Call) and isinstance(e.func, ast.Name):
+            names = prog.record_fields(e.func.id, fi.module)
+            if names is not None:
+                return names
+            g = prog.resolve_function(e.func.id, fi.module)
+            if g is not None:
+                outs = [record_fields_of(g, r.value, depth + 1) for r in ast.walk(g.node) if isinstance(r, ast.Return) and r.value is not None]
+                if outs and all(o is not None and o == outs[0] for o in outs):
+                    return outs[0]
+        return None
+
+    for fi in prog.functions.values():
+        if fi.module is not mp:
+            continue
+        vw = _View(fi.node)
+        for c in calls(fi.node):
+            if not (isinstance(c.func, ast.Attribute) and c.func.attr == "update"):
+                continue
+            base = vw.expand(c.func.value, c)
+            if not (isinstance(base, ast.Subscript) and isinstance(base.value, ast.Attribute) and base.value.attr == "nodes"):
+                continue
+            for kw in c.keywords:
+                if kw.arg:
+                    stored.add(kw.arg)
+            for a in c.args:
+                if isinstance(a, ast.Dict) and all(isinstance(k, ast.Constant) and isinstance(k.value, str) for k in a.keys):
+                    stored |= {k.value for k in a.keys}
+                elif isinstance(a, ast.Call) and isinstance(a.func, ast.Attribute) and a.func.attr == "_asdict" and not a.args:
+                    names = record_fields_of(fi, a.func.value)
+                    if names is None:
+                        raise AnalysisError("N1: %s stores the fields of %s on a node; the record type is not recognised" % (fi.qualname, u(a.func.value)))
+                    stored |= set(names)
+                else:
+                    raise AnalysisError("N1: %s updates a node from %s (keys not recognised)" % (fi.qualname, u(a)[:60]))
     need = {k: v for k, v in loaded.items() if k not in stored}
     if not need:
         raise AnalysisError("process_trace/map.py reads no node attribute that comes from the tree (anchor shape changed)")
